@@ -37,7 +37,7 @@ func spMetaXML(entityID, acs string, withEncCert bool) []byte {
 	var kds []saml.KeyDescriptor
 	if withEncCert {
 		kds = append(kds, saml.KeyDescriptor{Use: "encryption", KeyInfo: saml.KeyInfo{X509Data: saml.X509Data{
-			X509Certificates: []saml.X509Certificate{{Data: key("sp").CertB64()}}}}})
+			X509Certificates: []saml.X509Certificate{{Data: foldBase64(key("sp").CertB64())}}}}})
 	}
 	md := saml.EntityDescriptor{
 		EntityID: entityID,
@@ -52,6 +52,19 @@ func spMetaXML(entityID, acs string, withEncCert bool) []byte {
 		panic(err)
 	}
 	return b
+}
+
+// foldBase64 writes base64 text the way metadata files carry certificates: lines of 64 characters.
+func foldBase64(s string) string {
+	var sb strings.Builder
+	for i := 0; i < len(s); i += 64 {
+		j := i + 64
+		if j > len(s) {
+			j = len(s)
+		}
+		sb.WriteString("\n" + s[i:j])
+	}
+	return sb.String() + "\n"
 }
 
 // authnRequestURL makes a redirect-binding AuthnRequest from an SP with the given entity ID.
